@@ -144,7 +144,9 @@ async fn episode(p: &EpParams) -> EpReport {
     let (deleted_ok, _t_del) = match del {
         Ok(Ok((ok, t))) => (ok, t),
         _ => {
-            rep.inconclusive("delete-did-not-return");
+            // neither the deletion nor, therefore, the release of the consumers ever happens
+            rep.viol("C12", "C12:Q-del:delete-never-returned", format!("DeleteSubscription (racing publish: {}) was still pending after one virtual hour; {} stream(s) and {} blocked pull(s) keep waiting", race_publish, streams.len(), blocked.len()));
+            rep.nontrivial = true;
             rep.history = w.history().abstract_lines(300);
             w.shutdown();
             return rep;
